@@ -110,6 +110,9 @@ pub(crate) mod verif_sys {
     fn any_rule() -> Arc<Rule> {
         let k: u8 = kani::any();
         kani::assume(k < 5);
+        rule_of(k)
+    }
+    fn rule_of(k: u8) -> Arc<Rule> {
         let metric_type = match k {
             0 => MetricType::Load,
             1 => MetricType::AvgRT,
@@ -255,4 +258,28 @@ pub(crate) mod verif_sys {
         },
         7
     );
+
+    fn table_for(k: u8) {
+        any_readings();
+        let rule = rule_of(k);
+        let (passed, msg, snap) = can_pass_check(&rule);
+        let (trip, observed) = trips(&rule);
+        assert!(passed == !trip);
+        if trip {
+            let s = snap.unwrap();
+            let v = unsafe { *(Arc::as_ptr(&s) as *const f64) };
+            assert!(v.to_bits() == observed.to_bits());
+            std::mem::forget(s);
+        } else {
+            std::mem::forget(snap);
+        }
+        std::mem::forget(msg);
+        kani::cover!(trip);
+        kani::cover!(!trip);
+    }
+    sys_harness!(sys_table_load, { table_for(0) }, 7);
+    sys_harness!(sys_table_avg_rt, { table_for(1) }, 7);
+    sys_harness!(sys_table_concurrency, { table_for(2) }, 7);
+    sys_harness!(sys_table_qps, { table_for(3) }, 7);
+    sys_harness!(sys_table_cpu, { table_for(4) }, 7);
 }
